@@ -9,7 +9,7 @@ from dataclasses import InitVar, dataclass, field, KW_ONLY
 from enum import StrEnum, unique
 from functools import partial
 from itertools import chain, filterfalse, islice, starmap
-from operator import getitem, gt, sub
+from operator import getitem, sub
 from random import shuffle
 from warnings import warn
 
@@ -1197,7 +1197,7 @@ class State:
         elif min(self.starting_stacks) <= 0:
             raise ValueError('Non-positive starting stacks was supplied.')
         elif (
-                any(map(partial(gt, 0), self.blinds_or_straddles))
+                any(self.blinds_or_straddles)
                 and self.bring_in
         ):
             raise ValueError(
